@@ -159,6 +159,12 @@ def run_witnesses(ctx: Ctx, eng: diff.Engine, prop: Optional[str] = None, nevent
             else:
                 ctx.notes.append(f"known finding {f['key']}: committed witness no longer fails ({kind})")
         else:  # fixed: ordinary regression case
+            if (f.get("witness") or {}).get("expect") == "refused":
+                if kind is not None and kind.startswith("refused"):
+                    ctx.count("fixed_witnesses_held")
+                elif kind not in ("harness", "timeout"):
+                    ctx.violation(c.replay(), f"regression of fixed finding {f['key']}: the query must be rejected but {kind or 'a package was produced and ran'}")
+                continue
             if kind is not None and kind not in ("harness", "timeout"):
                 rep = c.replay()
                 rep["failure"] = {"kind": kind, "detail": describe(r)}
